@@ -21,6 +21,7 @@ EXPLANATION = ('WHO-CALLS: HPKE seal is reachable only through HpkeEncryptable::
                'with its direct path before any encapsulation. GUARD: a member removed by the commit never runs apply_update_path / '
                'update_key_schedule. That a party holding none of the target keys cannot compute the secrets is a cryptographic '
                'argument and is not decided.')
+EXPLANATION += ' IMPLIES: the predicate that decides whether a commit needs an update path answers true whenever a Remove is covered, on every path.'
 ASSUMPTIONS = ['HPKE is IND-CCA secure; resolution / copath arithmetic is value-level (C20, not claimed)']
 
 
